@@ -224,6 +224,9 @@ NI static void cmd_cons(char **a, int na) {
     void *st = 0;
     asn_dec_rval_t rv = asn_decode(0, ATS_BER, td, &st, in, n);
     if(rv.code != RC_OK) { printf("cons rc=%d\n", rv.code); ASN_STRUCT_FREE(*td, st); exact_free(in, n); return; }
+    /* does the structure really hold the value we meant? (a C type that cannot represent it, e.g. -1 in an unsigned long, does not) */
+    int same = 0;
+    { struct enc d = do_enc(ATS_DER, td, st); same = (d.n == (ssize_t)n && !memcmp(d.b, in, n)); enc_free(&d); }
     int ret0 = 99; int bad = 0; char msg[160]; msg[0] = 0;
     for(size_t sz = 0; sz <= 128; sz++) {
         /* errbuf is an exact-size heap block so that an overrun is caught by ASan */
@@ -237,11 +240,10 @@ NI static void cmd_cons(char **a, int na) {
             else if(eb[el] != 0 || memchr(eb, 0, el)) bad |= 4;   /* not terminated exactly at errlen */
             if(sz == 128) { memcpy(msg, eb, el < 159 ? el : 159); msg[el < 159 ? el : 159] = 0; }
         }
-        if(sz && !r && el != 0) bad |= 8;
         __real_free(eb);
     }
     for(char *p = msg; *p; p++) if(*p == ' ' || *p == '\n') *p = '_';
-    printf("cons rc=0 ret=%d bad=%d msg=%s\n", ret0, bad, msg[0] ? msg : "-");
+    printf("cons rc=0 same=%d ret=%d bad=%d msg=%s\n", same, ret0, bad, msg[0] ? msg : "-");
     ASN_STRUCT_FREE(*td, st);
     exact_free(in, n);
 }
